@@ -640,7 +640,9 @@ func (u *Unit) execSlice(fc *frameCtx, st *State, pc *Term, t *ssa.Slice) {
 // checkWrite enforces the declared frame of the unit and of enclosing loops for a write of type et at addr.
 func (u *Unit) checkWrite(fc *frameCtx, st *State, pc *Term, addr *Term, et types.Type, pos token.Pos) {
 	if fc.spec {
-		panic(unsupported("heap write inside a specification / pure context"))
+		// specification context works on a private copy of the state; transparent functions are separately
+		// verified to write only memory they allocate themselves (frame/write obligations of their own unit)
+		return
 	}
 	var locs []leafLoc
 	u.leafAddrs(addr, et, &locs)
@@ -652,13 +654,18 @@ func (u *Unit) allowedBy(fr *FrameSpec, bound *Term, l leafLoc) *Term {
 	if fr == nil || fr.Any {
 		return c.True()
 	}
-	alts := []*Term{c.Ge(c.Root(l.Addr), bound)}
+	// addresses under nil are never written (the dereference panics first)
+	alts := []*Term{c.Ge(c.Root(l.Addr), bound), c.Eq(c.Root(l.Addr), c.Int(0))}
 	for _, r := range fr.Roots {
 		alts = append(alts, c.Eq(c.Root(l.Addr), r))
 	}
 	for _, x := range fr.Leaves {
 		if x.Sort == l.Sort {
-			alts = append(alts, c.Eq(l.Addr, x.Addr))
+			if x.Cond != nil {
+				alts = append(alts, c.And(x.Cond, c.Eq(l.Addr, x.Addr)))
+			} else {
+				alts = append(alts, c.Eq(l.Addr, x.Addr))
+			}
 		}
 	}
 	return c.Or(alts...)
